@@ -71,7 +71,7 @@ func c18Matrix(c *vf.Ctx) {
 	for _, t := range KeyTypes {
 		ids = append(ids, Keys()[t]...)
 	}
-	reps := c.N(6, 40)
+	reps := c.N(6, 120)
 	idx := 0
 	for rep := 0; rep < reps; rep++ {
 		for a := range ids {
@@ -143,7 +143,7 @@ func c18Alter(c *vf.Ctx) {
 	if !c.Active(sub) {
 		return
 	}
-	n := c.N(2000, 16000)
+	n := c.N(2000, 50000)
 	for i := 0; i < n; i++ {
 		if !c.Mine(sub, i) {
 			continue
